@@ -502,7 +502,7 @@ def install(E):
     # ---- python-side list methods
     @reg("method.append")
     def _append(E, P, ctx, lst, x):
-        E.guard_global_write(lst)
+        E.guard_global_write(lst, P)
         if isinstance(lst, Handle) and lst.kind == "list":
             P.put(lst, P.get(lst) + (x,))
             P.written.add("pylist")
@@ -532,7 +532,7 @@ def install(E):
 
     @reg("method.pop")
     def _pop(E, P, ctx, lst, k=None):
-        E.guard_global_write(lst)
+        E.guard_global_write(lst, P)
         if isinstance(lst, Handle) and lst.kind == "list":
             xs = list(P.get(lst))
             n = -1 if k is None else E.cint(k)
@@ -632,7 +632,7 @@ def install(E):
 
     @reg("method.update")
     def _update(E, P, ctx, d, other):
-        E.guard_global_write(d)
+        E.guard_global_write(d, P)
         if isinstance(d, Handle) and d.kind == "dict" and isinstance(other, Handle) and other.kind == "dict":
             nd = dict(P.get(d))
             nd.update(P.get(other))
